@@ -21,6 +21,8 @@ type ShutCfg struct {
 	Phases  []string // per connection: idle | half | fast | slow | nowrite-smallpipe | late
 	PipeCap int
 	ShutAt  string // "" = from the start; "written" = after every client has written what it writes
+	Shutters int   // number of threads calling Shutdown concurrently (0 = 1)
+	CloseErr bool  // the listener's Close reports an error (it is closed all the same)
 }
 
 type shutWorld struct {
@@ -110,6 +112,9 @@ func shutdownScenario(cfg ShutCfg) func() {
 	return func() {
 		resetPackages()
 		w := &shutWorld{cfg: cfg, lis: &Listener{Cap: cfg.PipeCap}, gate: mc.MakeChan[struct{}](0)}
+		if cfg.CloseErr {
+			w.lis.CloseErr = errors.New("close: cannot remove the socket")
+		}
 		exec := kmipserver.NewBatchExecutor()
 		exec.Route(kmip.OperationActivate, kmipserver.HandleFunc(w.handler))
 		srv := kmipserver.NewServer(w.lis, exec)
@@ -154,23 +159,37 @@ func shutdownScenario(cfg ShutCfg) func() {
 			})
 			_ = written
 		}
-		mc.GoNamed("shut", func() {
-			if cfg.ShutAt == "late" {
-				for _, v := range written {
-					v.Await(true)
+		nShut := cfg.Shutters
+		if nShut == 0 {
+			nShut = 1
+		}
+		var shutDone mc.Counter
+		for si := 0; si < nShut; si++ {
+			name := "shut"
+			if si > 0 {
+				name = fmt.Sprintf("shut%d", si+1)
+			}
+			mc.GoNamed(name, func() {
+				if cfg.ShutAt == "late" {
+					for _, v := range written {
+						v.Await(true)
+					}
 				}
-			}
-			_ = srv.Shutdown()
-			if !w.lis.IsClosed() {
-				mc.Failf("listener-open: listener still open after Shutdown returned")
-			}
-			if n := w.active.Load(); n != 0 {
-				mc.Failf("handler-running-at-return: %d handler(s) still running when Shutdown returned", n)
-			}
-			w.shutReturned.Store(true)
-		})
+				_ = srv.Shutdown()
+				// every call of Shutdown, also one that overlaps another, returns only once the server is drained
+				if !w.lis.IsClosed() {
+					mc.Failf("listener-open: listener still open after Shutdown returned")
+				}
+				if n := w.active.Load(); n != 0 {
+					mc.Failf("handler-running-at-return: %d handler(s) still running when Shutdown returned", n)
+				}
+				w.shutReturned.Store(true)
+				shutDone.Add(1)
+			})
+		}
 		// end-of-execution checks run in main once everything else is quiescent
 		w.shutReturned.Await(true)
+		shutDone.Await(nShut)
 		serveRet.Await(1)
 		for _, g := range w.clientGone {
 			g.Await(true)
@@ -207,6 +226,10 @@ func init() {
 	sd("shut-smallpipe", "Shutdown at any time vs a response stuck in a 16-byte pipe nobody reads", ShutCfg{Hook: "ok", PipeCap: 16, Phases: []string{"nowrite-smallpipe"}})
 	sd("shut-hookfail", "Shutdown at any time vs a connection whose connect hook fails", ShutCfg{Hook: "fail", Phases: []string{"fast"}})
 	sd("shut-late", "Shutdown starts first, a client connects and sends a request while it runs (late accept)", ShutCfg{Hook: "ok", ShutAt: "late", Phases: []string{"late"}})
+	sd("shut-twice-slow", "two threads call Shutdown concurrently while a handler runs until cancelled: each call returns only once the server is drained", ShutCfg{Hook: "ok", Shutters: 2, Phases: []string{"slow"}})
+	sd("shut-twice-fast", "two threads call Shutdown concurrently vs a connection with a fast handler", ShutCfg{Hook: "ok", Shutters: 2, Phases: []string{"fast"}})
+	sd("shut-closeerr-slow", "the listener's Close reports an error; a handler runs until cancelled", ShutCfg{Hook: "ok", CloseErr: true, Phases: []string{"slow"}})
+	sd("shut-closeerr-fast", "the listener's Close reports an error; fast handler", ShutCfg{Hook: "ok", CloseErr: true, Phases: []string{"fast"}})
 	sd("shut-2conn", "Shutdown at any time vs two connections (fast handler, slow handler)", ShutCfg{Hook: "ok", Phases: []string{"fast", "slow"}})
 	sd("shut-2conn-idle-fast", "Shutdown at any time vs two connections (idle, fast)", ShutCfg{Phases: []string{"idle", "fast"}})
 }
